@@ -45,6 +45,9 @@ var branchCmd = &cobra.Command{
 		// add branch
 		if len(args) == 1 {
 			addBranchName := args[0]
+			if client.Head.Commit == nil {
+				return fmt.Errorf("fatal: not a valid object name: '%s' does not have any commits yet", client.Head.Reference)
+			}
 			addBranchHash := client.Head.Commit.Hash
 
 			if err := client.Refs.AddBranch(client.RootGoitPath, addBranchName, addBranchHash); err != nil {
